@@ -270,3 +270,8 @@ def c134(ctx):
     exc = {k: v for k, v in PANIC_EXC.items() if k[0].startswith("mani::")}
     K.panic_audit(ctx, R + "p", fns, exc)
     ctx.floor(R, "R-ERR sites in mani", n, 20)
+    from .C09_exc import BOUNDS_EXC
+    ctx.declare(R + "b", "manifest bytes are never indexed beyond the length a dominating comparison established for that same buffer")
+    bexc = {k: v for k, v in BOUNDS_EXC.items() if k[0].startswith("mani::") or k[0].startswith("<mani::")}
+    nb, pb = K.bounds_audit(ctx, R + "b", fns, bexc)
+    ctx.floor(R + "b", "index / slice sites in mani", nb, 6)
